@@ -11,6 +11,7 @@ global size_of usize == 8; // assumption: 64-bit target
 //@@include spec_mem.rs
 //@@include lemmas_list.rs
 //@@include spec_ops.rs
+//@@include lemmas_det.rs
 //@@include shim_sync.rs
 
 /// assumption (x86_64 / every 64-bit Rust target): u64 and AtomicU64 are 8 bytes, 8-aligned
@@ -174,6 +175,7 @@ impl Arena {
 // ---- list traversal -----------------------------------------------------------------------------------------
 
 //@@fn file=sync.rs scope="impl Arena {" name=find_position xlate=sync st=ref props=C10
+//@attr #[verifier::spinoff_prover]
 //@contract @find_position
 //@before 1 /^\s*loop/
     let ghost mut idx: int = -1;
@@ -211,6 +213,7 @@ impl Arena {
 //@@end
 
 //@@fn file=sync.rs scope="impl Arena {" name=find_prev_and_next xlate=sync st=ref props=C10
+//@attr #[verifier::spinoff_prover]
 //@contract @find_prev_and_next
 //@before 1 /^\s*loop/
     let ghost mut idx: int = -1;
@@ -252,6 +255,7 @@ impl Arena {
 // ---- release into the free list ---------------------------------------------------------------------------
 
 //@@fn file=sync.rs scope="impl Arena {" name=pessimistic_dealloc xlate=sync st=mut props=C10,C01,C20
+//@attr #[verifier::spinoff_prover]
 //@closure
   b == (val <= next_node_size)
 //@contract @pessimistic_dealloc
@@ -307,6 +311,7 @@ impl Arena {
 //@@end
 
 //@@fn file=sync.rs scope="impl Arena {" name=optimistic_dealloc xlate=sync st=mut props=C10,C01,C20
+//@attr #[verifier::spinoff_prover]
 //@closure
   b == (val >= next_node_size)
 //@contract @optimistic_dealloc
@@ -364,6 +369,7 @@ impl Arena {
 // ---- allocation from the free list (slow paths) -----------------------------------------------------------------
 
 //@@fn file=sync.rs scope="impl Arena {" name=alloc_slow_path_pessimistic xlate=sync st=mut props=C01,C03,C04,C08,C09,C10,C20
+//@attr #[verifier::spinoff_prover]
 //@closure
   b == (val <= next_node_size)
 //@contract @alloc_slow_path_pessimistic
@@ -438,6 +444,7 @@ impl Arena {
 //@@end
 
 //@@fn file=sync.rs scope="impl Arena {" name=alloc_slow_path_optimistic xlate=sync st=mut props=C01,C03,C04,C08,C09,C10,C20
+//@attr #[verifier::spinoff_prover]
 //@contract @alloc_slow_path_optimistic
 //@before 1 /let backoff = Backoff::new\(\);/
     let ghost s0 = st@;
@@ -510,6 +517,7 @@ impl Arena {
 // ---- discard_freelist ----------------------------------------------------------------------------------------------
 
 //@@fn file=sync.rs scope="impl Arena {" name=discard_freelist_in xlate=sync st=mut props=C20,C10
+//@attr #[verifier::spinoff_prover]
 //@contract @discard_freelist_in
 //@loop 1
       invariant
@@ -558,6 +566,7 @@ impl Arena {
 // ---- top-level allocation -------------------------------------------------------------------------------------------
 
 //@@fn file=sync.rs scope="impl Arena {" name=alloc_bytes_in xlate=sync st=mut props=C01,C03,C04,C08,C09,C10,C20
+//@attr #[verifier::spinoff_prover]
 //@attr #[verifier::exec_allows_no_decreases_clause]
 //@contract @alloc_bytes_in
 //@before 1 /let mut allocated = st\.hdr\.allocated\.load/
@@ -583,6 +592,7 @@ impl Arena {
 //@@end
 
 //@@fn file=sync.rs scope="impl Arena {" name=alloc_in xlate=sync st=mut props=C01,C03,C04,C08,C09,C10,C20
+//@attr #[verifier::spinoff_prover]
 //@attr #[verifier::exec_allows_no_decreases_clause]
 //@contract @alloc_in
 //@before 1 /let mut allocated = st\.hdr\.allocated\.load/
@@ -620,6 +630,7 @@ impl Arena {
 //@@end
 
 //@@fn file=sync.rs scope="impl Arena {" name=alloc_aligned_bytes_in xlate=sync st=mut props=C01,C03,C04,C09,C10,C20
+//@attr #[verifier::spinoff_prover]
 //@attr #[verifier::exec_allows_no_decreases_clause]
 //@contract @alloc_aligned_bytes_in
 //@before 1 /let mut allocated = st\.hdr\.allocated\.load/
@@ -657,6 +668,7 @@ impl Arena {
 // ---- release, discard, rewind, accessors (trait methods) ---------------------------------------------------------------
 
 //@@fn file=sync.rs scope="impl Allocator for Arena {" name=dealloc xlate=sync st=mut props=C01,C10,C13,C20
+//@attr #[verifier::spinoff_prover]
 //@contract @dealloc
 //@before 1 /return true;/
       proof { lemma_dealloc_top(self.av(), old(st)@, st@, offset as int, size as int); }
